@@ -7,6 +7,7 @@ import os
 
 from vlib.core import VERIF, AnalysisError, Report
 from vlib.flow import enclosing_tries, handler_types, parent_map
+from vlib.match import closure_fi, has_call, nodes
 from vlib.srcindex import ModuleInfo, SourceIndex, attr_chain, const_str, mangle, unparse, walk_no_nested
 from vlib.stores import effects_of, stores_of
 
@@ -69,6 +70,7 @@ def run(rep: Report, tier: str) -> None:
 	rule_e(rep, idx)
 	rule_f(rep, idx)
 	rule_g(rep, idx)
+	rule_h(rep, idx)
 
 
 # ---- (a) load / unload pairing ------------------------------------------------------------------------------------
@@ -142,11 +144,10 @@ def rule_a(rep: Report, idx: SourceIndex) -> None:
 	r.check('self.db.unload' in lcalls, 'ModuleLoader.unload->db.unload', (lu or ml).where, f'ModuleLoader.unload no longer removes the module\'s symbols from the SymbolDB ({lcalls}): symbols of the old source version survive a reload')
 	# load writes through the same owners
 	ll = ml.method('load')
-	r.check(ll is not None and 'self.entrypoints.load(' in unparse(ll.node), 'ModuleLoader.load->entrypoints.load', (ll or ml).where, 'ModuleLoader.load no longer obtains the entrypoint from Entrypoints (pairing with unload would be lost)')
+	r.check(ll is not None and has_call(closure_fi(ll), 'entrypoints.load'), 'ModuleLoader.load->entrypoints.load', (ll or ml).where, 'ModuleLoader.load no longer obtains the entrypoint from Entrypoints (pairing with unload would be lost)')
 	# SymbolDB.unload deletes exactly the module's keys
 	su = db.cls('SymbolDB').method('unload')
-	ssrc = unparse(su.node)
-	r.check('self.__paths[key][0] == module_path' in ssrc and 'del self.__paths[key]' in ssrc and 'del self.__items[key]' in ssrc and 'self.__completed.remove(module_path)' in ssrc, 'SymbolDB.unload-selects-module-keys', su.where, 'SymbolDB.unload no longer removes exactly the keys filed under the module and its completed mark')
+	_rule_db_unload(r, su)
 	for k, why in OTHER_STORES.items():
 		r.note(f'other long-lived store {k}: {why}')
 
@@ -228,6 +229,9 @@ def rule_b(rep: Report, idx: SourceIndex) -> None:
 
 # ---- (c) global mutable state -----------------------------------------------------------------------------------------------------
 
+CLASS_LEVEL_IMMUTABLE_CTORS = {'re.compile', 'field', 'TypeVar', 'TypeVarTuple', 'ParamSpec', 'NewType', 'auto', 'tuple', 'frozenset', 'namedtuple', 'object'}
+
+
 def rule_c(rep: Report, idx: SourceIndex) -> None:
 	r = rep.rule('C04/global-state-inventory', 'process-global mutation (setattr on classes, class-/module-level containers mutated after import, mutable defaults mutated) is limited to the reviewed list', floor=6)
 	n_defaults = 0
@@ -239,6 +243,17 @@ def rule_c(rep: Report, idx: SourceIndex) -> None:
 			cc = {k for k, v in c.class_attrs.items() if isinstance(v, (ast.Dict, ast.List, ast.Set))}
 			if cc:
 				class_containers[q] = cc
+		# an object constructed in a class body exists once per class: every instance (every rule set, every parser, every module) shares it. Compiled
+		# regexps and dataclass field() descriptors are immutable; anything else (a Memoize, a cache, a context) is shared mutable state
+		for q, c in m.classes.items():
+			for k, v in c.class_attrs.items():
+				if isinstance(v, ast.Call) and unparse(v.func) not in CLASS_LEVEL_IMMUTABLE_CTORS and not any(unparse(b).split('.')[-1] in ('Enum', 'IntEnum', 'NamedTuple', 'Protocol') for b in c.node.bases):
+					key = f'{rel}:{q}.{k}:class-level object'
+					why = GLOBAL_MUTATION_ALLOW.get(key)
+					if why:
+						r.ok(key, (rel, v.lineno), message=f'reviewed: {why}')
+					else:
+						r.violate(key, (rel, v.lineno), f'class {q} builds `{k} = {unparse(v)[:60]}` in its class body: one object shared by every instance for the life of the process (a memo filled for one rule set / module answers for every other one), unless each instance replaces it in __init__', unparse(v)[:80])
 		for q, f in m.functions.items():
 			if '#' in q:
 				continue
@@ -291,6 +306,21 @@ def rule_c(rep: Report, idx: SourceIndex) -> None:
 						if isinstance(n, ast.Call) and isinstance(n.func, ast.Attribute) and isinstance(n.func.value, ast.Name) and n.func.value.id == p.arg and n.func.attr in ('append', 'extend', 'insert', 'update', 'setdefault', 'add', 'pop', 'remove', 'clear'):
 							muts.append(unparse(n))
 					r.check(not muts, f'{rel}:{q}:default {p.arg}', where0, f'{q} mutates its mutable default `{p.arg}={unparse(d)}` ({muts[:1]}): the mutation persists across calls (history dependence)')
+				elif isinstance(d, ast.Call) and unparse(d.func) not in ('tuple', 'frozenset', 'str', 'int', 'float', 'bool', 'bytes', 'object'):
+					# an object constructed ONCE, when the def statement runs, and shared by every call that omits the argument
+					n_defaults += 1
+					uses = []
+					for n in walk_no_nested(f.node):
+						if isinstance(n, (ast.Assign, ast.AugAssign)):
+							for t in (n.targets if isinstance(n, ast.Assign) else [n.target]):
+								if isinstance(t, (ast.Attribute, ast.Subscript)) and isinstance(t.value, ast.Name) and t.value.id == p.arg:
+									uses.append(unparse(n))
+						if isinstance(n, ast.Call):
+							if isinstance(n.func, ast.Attribute) and isinstance(n.func.value, ast.Name) and n.func.value.id == p.arg:
+								uses.append(unparse(n))
+							if any(isinstance(x, ast.Name) and x.id == p.arg for x in list(n.args) + [kw.value for kw in n.keywords]):
+								uses.append(unparse(n))
+					r.check(not uses, f'{rel}:{q}:default {p.arg}', where0, f'{q} takes `{p.arg}={unparse(d)}`: the object is built once when the function is defined and shared by every call; it is then modified or handed on ({uses[0][:70] if uses else ""}), so state written by one run (indent unit, bracket depth, collected items) is seen by every later run in the process', unparse(d))
 	# the prop_keys cache is a pure function of class-level metadata
 	nd = idx.mod('rogw/tranp/syntax/node/node.py')
 	pk = nd.func('Node.prop_keys')
@@ -327,8 +357,8 @@ def rule_d(rep: Report, idx: SourceIndex) -> None:
 				seq.append((n.lineno, 'exec'))
 	r.check([k for _, k in sorted(seq)] == ['push', 'exec', 'pop'], 'transpile-balanced', t.where, f'transpile must push, exec, pop exactly once each: {sorted(seq)}')
 	ov = m.func('Py2Cpp.__on_view_depends')
-	src = unparse(ov.node)
-	r.check('self.__stack_on_depends[-1]' in src and 'self.__stack_on_depends[0]' not in src, 'depends-top-frame', ov.where, 'view dependency events no longer go to the top frame of the dependency stack')
+	frames = [n for b in closure_fi(ov) for n in nodes(b, ast.Subscript) if unparse(n.value) == 'self.__stack_on_depends']
+	r.check(bool(frames) and all(unparse(n.slice) == '-1' for n in frames), 'depends-top-frame', ov.where, 'view dependency events no longer go to the top frame of the dependency stack')
 	r.note('neither Py2Cpp.transpile nor Procedure.exec pops in a finally block: a handler that caught an exception of a nested transpile would leave a stale frame; no such handler exists today (reported, not armed)')
 
 
@@ -368,7 +398,7 @@ def rule_e(rep: Report, idx: SourceIndex) -> None:
 					deep = True
 	r.check(deep, 'to_temporary-is-deep', tt.where, 'ReflectionBase.to_temporary no longer clones each nested attribute with to_temporary(): the copy shares its nested attrs with the declaration symbol stored in the SymbolDB, so a type variable resolved two or more levels deep (dict[str, list[T]]) is written into the shared symbol and the first actual type sticks for every later module', unparse(tt.node)[-160:])
 	stack = rf.func('ReflectionBase.stack')
-	r.check('Reflection(' in unparse(stack.node) and 'origin=self' in unparse(stack.node), 'stack-makes-new-instance', stack.where, 'ReflectionBase.stack no longer creates a new Reflection over the original')
+	r.check(any(isinstance(n.func, ast.Name) and n.func.id == 'Reflection' and any(kw.arg == 'origin' and unparse(kw.value) == 'self' for x in ast.walk(n) if isinstance(x, ast.Call) for kw in x.keywords) for b in closure_fi(stack) for n in nodes(b, ast.Call)), 'stack-makes-new-instance', stack.where, 'ReflectionBase.stack no longer creates a new Reflection over the original')
 
 
 # ---- (f) reflection attrs are written only on temporaries -------------------------------------------------------------------------------
@@ -537,3 +567,173 @@ def rule_g(rep: Report, idx: SourceIndex) -> None:
 								r.violate(key, (rel, n.lineno), f'{c.name} keeps a new container/memo in `self.{tgt.attr}` ({unparse(n.value)[:40]}): instances of pipeline classes live across modules and interactive submissions, so whatever is remembered here can answer for another input (a memo keyed by a name that is re-used after unload/reload, a parser memo that is not reset after a failed parse); show that it is reset per input or keyed by the complete input, then list it', unparse(n)[:100])
 	for k in sorted(set(STATE_ALLOW) - seen):
 		r.note(f'listed state no longer present: {k}')
+
+
+def _rule_db_unload(r, su) -> None:
+	"""SymbolDB.unload(module_path): deletes from BOTH key stores (__items, __paths) exactly the keys whose recorded module equals module_path, and drops the
+	completed mark. Decided on the fully inlined body: the deleted key ranges over a selection filtered by an equality with the parameter."""
+	from vlib.match import FI, atoms, nodes
+	key = 'SymbolDB.unload-selects-module-keys'
+	sx = FI(su)
+	mp = [p_ for p_ in su.params() if p_ not in ('self',)][0]
+	removed: dict[str, list] = {}
+	for n in nodes(sx, (ast.Delete, ast.Call)):
+		tgts = n.targets if isinstance(n, ast.Delete) else ([ast.Subscript(value=n.func.value, slice=n.args[0])] if isinstance(n.func, ast.Attribute) and n.func.attr == 'pop' and n.args else [])
+		for t in tgts:
+			if isinstance(t, ast.Subscript) and unparse(t.value) in ('self.__paths', 'self.__items'):
+				removed.setdefault(unparse(t.value), []).append((n, t.slice))
+	marks = [n for n in nodes(sx, ast.Call) if isinstance(n.func, ast.Attribute) and n.func.attr in ('remove', 'discard') and unparse(n.func.value) == 'self.__completed' and n.args and unparse(n.args[0]) == mp]
+	marks += [n for n in nodes(sx, ast.Assign) if unparse(n.targets[0]) == 'self.__completed' and mp in unparse(n.value)]
+	if set(removed) != {'self.__paths', 'self.__items'}:
+		r.violate(key, su.where, f'SymbolDB.unload deletes from {sorted(removed)} only: both key stores (__items and __paths) must lose the keys of the module, or symbols of the old source version survive a reload')
+		return
+	if not marks:
+		r.violate(key, su.where, 'SymbolDB.unload no longer drops the completed mark of the module: the next load believes the module is complete and skips its symbols')
+		return
+	verdicts = []
+	for store, sites in removed.items():
+		for n, k in sites:
+			conds = [(a, p_) for a, p_ in atoms(sx, n)]
+			# the loop the key comes from: its iterable (after inlining) is a comprehension with a filter, or the deletion is guarded
+			for lp in nodes(sx, ast.For):
+				if isinstance(k, ast.Name) and any(isinstance(t, ast.Name) and t.id == k.id for t in ast.walk(lp.target)) and any(n is x for x in ast.walk(lp)):
+					it = lp.iter
+					if isinstance(it, ast.Call) and unparse(it.func) in ('list', 'tuple') and it.args:
+						it = it.args[0]
+					if isinstance(it, (ast.ListComp, ast.GeneratorExp)):
+						for g in it.generators:
+							conds += [(c_, True) for c_ in g.ifs]
+			sel = [(a, p_) for a, p_ in conds if any(isinstance(x, ast.Name) and x.id == mp for x in ast.walk(a))]
+			if not sel:
+				verdicts.append(('unknown', f'no condition on `{mp}` found for `{unparse(n)[:50]}`'))
+				continue
+			for a, p_ in sel:
+				eq = isinstance(a, ast.Compare) and len(a.ops) == 1 and isinstance(a.ops[0], ast.Eq) and p_ and (unparse(a.left) == mp or unparse(a.comparators[0]) == mp)
+				memb = isinstance(a, ast.Compare) and len(a.ops) == 1 and isinstance(a.ops[0], ast.In) and unparse(a.left) == mp and unparse(a.comparators[0]) == 'self.__completed'
+				if eq:
+					other = a.comparators[0] if unparse(a.left) == mp else a.left
+					verdicts.append(('ok', '') if '__paths' in unparse(other) or isinstance(other, ast.Name) else ('unknown', f'`{unparse(a)}` does not compare with the recorded module of the key'))
+				elif memb:
+					continue
+				else:
+					verdicts.append(('bad', f'`{unparse(a)}` (expected: recorded module of the key == {mp})'))
+	if any(v == 'bad' for v, _ in verdicts):
+		r.violate(key, su.where, f'SymbolDB.unload selects the keys to delete with {[w for v, w in verdicts if v == "bad"][0]}: keys of other modules are deleted too, or keys of the module survive')
+	elif any(v == 'unknown' for v, _ in verdicts) or not verdicts:
+		r.skip(key, su.where, f'selection of the deleted keys not recognised: {[w for v, w in verdicts if v == "unknown"][:2]}')
+	else:
+		r.ok(key, su.where)
+
+
+# ---- (h) extends() completes a NEW reflection, never a shared one -----------------------------------------------------------------------
+
+FRESH_MAKERS = ('stack', 'to', 'declare', 'to_temporary', 'instantiate')
+SHARED_SOURCES = ('from_standard', 'type_of', 'resolve', 'get_object', 'from_fullyname', 'from_standard_by')
+
+
+def rule_h(rep: Report, idx: SourceIndex) -> None:
+	"""IReflection.extends(*attrs) writes the type arguments INTO the receiver (and refuses a second call). Symbols obtained from the SymbolDB
+	(from_standard(T), type_of(node), resolve(...), db[key]) are shared by every module and every run of the process: extending one of them in place makes
+	the first literal's type arguments part of the library symbol, and the next extension fails with Never('Already set attibutes'). Every receiver of
+	extends() must therefore be a reflection created for the occasion: the result of stack()/to()/declare()/to_temporary()/a constructor."""
+	from vlib.match import may_reach
+	r = rep.rule('C04/extends-on-fresh-reflections-only', 'every receiver of .extends(...) in the semantics layer is a newly created reflection (stack / to / declare / to_temporary / constructor result, directly or through a local), never a symbol obtained from the shared table', floor=25)
+
+	visiting: set[str] = set()
+
+	def classify(f, e: ast.AST, depth: int = 0) -> tuple[str, str]:
+		if isinstance(e, ast.Name) and isinstance(e.ctx, ast.Load):
+			if e.id in visiting:
+				return 'fresh', ''  # a walk down the same structure (`attr = attr.attrs[i]`): decided by the other bindings of the name
+			visiting.add(e.id)
+			try:
+				return classify_(f, e, depth)
+			finally:
+				visiting.discard(e.id)
+		return classify_(f, e, depth)
+
+	def classify_(f, e: ast.AST, depth: int = 0) -> tuple[str, str]:
+		if isinstance(e, ast.Call):
+			fn = e.func
+			if isinstance(fn, ast.Attribute) and fn.attr in FRESH_MAKERS:
+				return 'fresh', ''
+			if isinstance(fn, ast.Name) and fn.id[:1].isupper():
+				return 'fresh', ''
+			if isinstance(fn, ast.Attribute) and fn.attr in SHARED_SOURCES:
+				return 'shared', f'`{unparse(e)[:70]}` is the symbol stored in the shared table'
+			return 'unknown', f'call `{unparse(e)[:60]}`'
+		if isinstance(e, ast.Subscript):
+			base = e.value
+			if isinstance(base, ast.Attribute) and base.attr == 'attrs':
+				return classify(f, base.value, depth + 1)
+			if isinstance(base, ast.Name) and depth < 4:
+				defs_ = may_reach(f.node, base)
+				if defs_ is None:
+					return 'unknown', f'`{unparse(e)}` indexes a parameter'
+				kinds = []
+				for d_ in defs_:
+					v = getattr(d_, 'value', None)
+					if isinstance(v, ast.ListComp):
+						kinds.append(classify(f, v.elt, depth + 1))
+					elif isinstance(v, ast.List) and not v.elts:
+						# filled by append/extend of other locals: follow them
+						for c_ in ast.walk(f.node):
+							if isinstance(c_, ast.Call) and isinstance(c_.func, ast.Attribute) and c_.func.attr in ('append', 'extend') and isinstance(c_.func.value, ast.Name) and c_.func.value.id == base.id and c_.args:
+								a0 = c_.args[0]
+								if isinstance(a0, ast.Name):
+									for d2 in may_reach(f.node, a0) or []:
+										v2 = getattr(d2, 'value', None)
+										kinds.append(classify(f, v2.elt if isinstance(v2, ast.ListComp) else v2, depth + 1) if v2 is not None else ('unknown', 'loop variable'))
+								else:
+									kinds.append(classify(f, a0, depth + 1))
+					elif v is not None:
+						kinds.append(classify(f, v, depth + 1))
+				if kinds and all(k == 'fresh' for k, _ in kinds):
+					return 'fresh', ''
+				bad = [w for k, w in kinds if k == 'shared']
+				return ('shared', bad[0]) if bad else ('unknown', f'elements of `{base.id}` not classified')
+			if isinstance(base, ast.Attribute) and 'db' in base.attr.lower() or (isinstance(base, ast.Name) and base.id == 'db'):
+				return 'shared', f'`{unparse(e)[:60]}` is a row of the symbol table'
+			return 'unknown', f'`{unparse(e)[:60]}`'
+		if isinstance(e, ast.Name):
+			if depth > 4:
+				return 'unknown', 'depth'
+			defs_ = may_reach(f.node, e)
+			if defs_ is None:
+				return 'shared' if e.id not in ('self', 'cls') and f.name.startswith('on_') else 'unknown', f'`{e.id}` is a parameter: a symbol handed in by the caller'
+			kinds = []
+			for d_ in defs_:
+				v = getattr(d_, 'value', None)
+				if isinstance(d_, (ast.For, ast.AsyncFor)) or v is None:
+					kinds.append(('unknown', f'`{e.id}` is a loop variable'))
+				else:
+					kinds.append(classify(f, v, depth + 1))
+			if kinds and all(k == 'fresh' for k, _ in kinds):
+				return 'fresh', ''
+			bad = [w for k, w in kinds if k == 'shared']
+			return ('shared', bad[0]) if bad else ('unknown', '; '.join(w for _, w in kinds)[:120])
+		if isinstance(e, ast.Attribute) and e.attr == 'attrs':
+			return classify(f, e.value, depth + 1)
+		return 'unknown', f'`{unparse(e)[:60]}`'
+	n_sites = 0
+	for rel in idx.all_py(('rogw',)):
+		if rel.startswith(('rogw/tranp/test/', 'rogw/tranp/compatible/', 'rogw/tranp/bin/')):
+			continue
+		m = idx.mod(rel)
+		for q, f in m.functions.items():
+			if '#' in q:
+				continue
+			for c_ in walk_no_nested(f.node):
+				if not (isinstance(c_, ast.Call) and isinstance(c_.func, ast.Attribute) and c_.func.attr == 'extends'):
+					continue
+				n_sites += 1
+				rep.consulted(rel)
+				kind, why = classify(f, c_.func.value)
+				key = f'{rel}:{q}:{unparse(c_.func.value)[:50]}'
+				if kind == 'fresh':
+					r.ok(key, (rel, c_.lineno))
+				elif kind == 'shared':
+					r.violate(key, (rel, c_.lineno), f'{q} calls extends() on {why}: the type arguments are written into the symbol every module shares; the next such expression in the process (a second list literal mixing types) fails with Never("Already set attibutes"), and the arguments of the first one leak into the library module\'s symbols', unparse(c_)[:120])
+				else:
+					r.skip(key, (rel, c_.lineno), f'receiver of extends() not classified: {why}')
+	rep.extra_coverage['extends_sites'] = n_sites
